@@ -99,6 +99,8 @@ type Master struct {
 	Reconcile  bool // answer implicit reconciliation with one update per known task
 	launchSeq  int
 	SubscribeCount int
+	// HookTerminates: a triggered hook task runs to termination (BASIC_TASK_TERMINATED device event + final status).
+	HookTerminates bool
 }
 
 // NewMaster creates a master with the given agents.
@@ -467,6 +469,26 @@ func (m *Master) message(fid string, msg *scheduler.Call_Message) (mesos.Respons
 		case Silent:
 		default:
 			reply(controlcommands.NewMesosCommandResponse_TriggerHook(&cmd, nil, tid))
+			if m.HookTerminates {
+				// the hook process runs and terminates: kind "hook-exit" decides how
+				var exit int
+				voluntary := true
+				final := mesos.TASK_FINISHED
+				switch m.Behaviour(t, "hook-exit") {
+				case ErrSource:
+					exit, final = 3, mesos.TASK_FAILED
+				case ErrError:
+					voluntary, final = false, mesos.TASK_KILLED
+				case Silent:
+					return nullResp{}, nil // never terminates: the environment's hook timeout must fire
+				}
+				t.Alive = false
+				t.State = "DONE"
+				m.DeviceEvent(t, map[string]any{"type": 2 /* BASIC_TASK_TERMINATED */, "origin": map[string]any{
+					"agentId": map[string]string{"value": t.AgentID}, "executorId": map[string]string{"value": t.ExecutorID}, "taskId": map[string]string{"value": t.ID}},
+					"labels": map[string]string{"environmentId": t.EnvID}, "exitCode": exit, "voluntaryTermination": voluntary, "finalMesosState": int(final)})
+				m.status(t, final, "hook terminated")
+			}
 		}
 	default:
 		m.rec(CallRec{Type: "MESSAGE", FID: fid, Task: tid, Detail: head.Name})
